@@ -18,6 +18,7 @@ import runtrace
 import vlib
 
 PID = "C25"
+CONFIRM_BY_REPLAY = True   # a new deviation is reported only if replaying its stored case repeats it
 META = {
     "cat": "model_checking",
     "text": "TLC enumerates the complete option/case space of ExitStatus.tla (22k cases; all in thorough, a seeded sample in quick), the hooked "
